@@ -582,7 +582,9 @@ def check_track(G, l0, l1, tr, exp, fail):
     # a crossing longer than 1.05e-3 x longest side must be listed, one shorter than 0.95e-3 must not (5 % slack
     # for the doubles: entry/exit distances are differences of norms taken from the start of the line)
     must = [i for tin, tout, i, niv, tl in exp if info[i][3] > 1.05e-3]
-    may = set(i for tin, tout, i, niv, tl in exp if info[i][3] > 0.95e-3)
+    # (a column holding an end point of the line may be listed whatever the length: the column that holds the
+    #  whole line is always listed by design, and that is no corner clip)
+    may = set(i for tin, tout, i, niv, tl in exp if info[i][3] > 0.95e-3 or tin == 0 or tout == 1)
     got = [t[0] for t in tr]
     if len(set(got)) != len(got):
         fail('column_track:column-listed-twice', 'columns %s' % [G.cols[i].name for i in got], 'each crossed column once')
